@@ -76,6 +76,7 @@ def plan(tier, seed):
     for i in range(len(TWO_THREADS)):
         jobs.append({'space': 'two-threads', 'tier': tier, 'scenario': i,
                      'weight': 300})
+    jobs.append({'space': 'wide', 'tier': tier, 'weight': 300})
     for i in range(8):
         jobs.append({'space': 'mappings', 'tier': tier, 'shard': i, 'of': 8,
                      'weight': 400})
@@ -98,6 +99,8 @@ def run(job, seed):
         return run_debuglog(acc, enf)
     if space == 'mappings':
         return run_mappings(acc, enf, job)
+    if space == 'wide':
+        return run_wide(acc, enf, job)
     if space == 'two-threads':
         return run_two_threads(acc, job)
     left, right, targets = checks()[job['check']]
@@ -142,6 +145,43 @@ def run(job, seed):
     if n != (T.count_mappings_upto(cmax)):
         raise core.HarnessError('tree count %d != recurrence' % n)
     acc.sample(space, {'check': text, 'creds': tree})
+    return acc.result()
+
+
+def run_wide(acc, enf, job):
+    """Lists of SEVERAL mappings whose values are themselves scalars, lists
+    or mappings - wider than the container bound of the tree space allows:
+    every list of 1-3 elements from a menu of seven element shapes, under
+    one and under two levels, for paths of 2 and 3 segments."""
+    elems = [{'b': 'x'}, {'b': 'y'}, {'b': ['x']}, {'b': ['y', 'x']},
+             {'b': [{'c': 'x'}]}, {'b': {'c': 'x'}}, {'c': 'x'}, 'x']
+    n = 3 if job['tier'] == 'quick' else 4
+    cks = [('a.b', 'x'), ('a.b', '%(t)s'), ('a.b.c', 'x'), ('a.a.b', 'x'),
+           ('a.b', "['x']")]
+    for left, right in cks:
+        text = '%s:%s' % (left, right)
+        world.set_rules(enf, {'p': text})
+        for k in range(1, n + 1):
+            for combo in itertools.product(range(len(elems)), repeat=k):
+                lst = [elems[i] for i in combo]
+                for tree in ({'a': lst}, {'a': [{'a': lst}, {'b': 'y'}]},
+                             {'a': {'a': lst}}):
+                    target = {'t': 'x'}
+                    exp = rleaf.generic_allows(left, right, target, tree)
+                    acc.ev()
+                    got = world.decide(enf, 'p', target, tree)
+                    if got != ('ok', exp):
+                        acc.violation(
+                            'wide|%s' % ('allows' if got == ('ok', True)
+                                         else 'denies' if got[0] == 'ok'
+                                         else got[1]),
+                            '%s against %r: got %r, reference %r' %
+                            (text, tree, got, exp),
+                            {'check': text, 'creds': tree, 'target': target},
+                            exp, got, 'wide')
+                    acc.outcome('allow' if exp else 'deny')
+                acc.case('wide', k >= 2)
+    acc.sample('wide', {'elements': elems})
     return acc.result()
 
 
